@@ -78,6 +78,18 @@ template <class T> struct SelfAcc {
   constexpr reference access(data_handle_type, size_t) const noexcept { return value; }
   constexpr data_handle_type offset(data_handle_type p, size_t i) const noexcept { return p + i; }
 };
+// ---- an accessor whose access() THROWS (a checked / poisoned element): m[idx] must propagate exactly what accessor().access(...) throws
+inline bool& throwArmed() { static bool b = false; return b; }
+template <class T> struct ThrowAcc {
+  using offset_policy = ThrowAcc; using element_type = T; using reference = T&; using data_handle_type = T*;
+  constexpr ThrowAcc() noexcept = default;
+  constexpr explicit ThrowAcc(int) noexcept {}
+  template <class U, class = std::enable_if_t<std::is_convertible<U (*)[], T (*)[]>::value>> constexpr ThrowAcc(const ThrowAcc<U>&) noexcept {}
+  reference access(data_handle_type p, size_t i) const { if (throwArmed()) throw static_cast<long>(i); return p[i]; }
+  data_handle_type offset(data_handle_type p, size_t i) const noexcept { return p + i; }
+};
+template <class A> struct isThrowAcc : std::false_type {};
+template <class T> struct isThrowAcc<ThrowAcc<T>> : std::true_type {};
 template <class A> struct isSelfAcc : std::false_type {};
 template <class T> struct isSelfAcc<SelfAcc<T>> : std::true_type {};
 template <class A> int accId(const A&) { return -1; }
@@ -314,6 +326,16 @@ template <Kind K, class E, size_t SP, class A, class MDS2, class MDS3 = MDS2> vo
         if (!pool[num_(1)]) { emit("none"); continue; }
         wrPack(*pool[num_(1)], lst(3), static_cast<int>(num_(2)), std::make_index_sequence<E::rank()>()); continue;
       }
+      if (c == "lg") { emit("calls=" + std::to_string(accessLog().size())); continue; }      // accessor calls since the start of the sequence / the last access
+      if (c == "tx") {      // element access through an accessor that throws: the exception (carrying the offset) must reach the caller
+        if (!pool[num_(1)]) { emit("none"); continue; }
+        if constexpr (isThrowAcc<A>::value) {
+          throwArmed() = true; std::string s;
+          try { long p = atTyped(*pool[num_(1)], a[2], a[3], lst(4)); s = p == -1000000 ? "no-form" : "returned"; }
+          catch (long off) { s = "threw=" + std::to_string(off); }
+          throwArmed() = false; emit(s);
+        } else emit("no-op");
+        continue; }
       if (c == "df") {
         std::string s = "df="; bool any = false;
         for (size_t i = 0; i < arena().n; i++) if (base[i] != static_cast<int>(1000000 + i)) { if (any) s += ","; s += std::to_string(i) + ":" + std::to_string(base[i]); any = true; }
